@@ -2,7 +2,14 @@
 import json, os
 
 E1 = "symx"
+E2 = "sqlsem"
 CHECKS = {
+    "C01": dict(
+        engine=E2, category="translation_validation",
+        technique="translation validation: real compiler output re-parsed with the backend grammar, equivalence with the expression tree decided by z3 (3VL + NULL flags), sat models replayed on sqlite3",
+        text="For every constructor tree of a bounded grammar (depth<=2 complete; depth-3 spines in thorough) x {sqlite, postgresql, mysql} x {literal_binds, bound parameters} the SQL emitted by the real compiler is parsed with the backend's operator-precedence grammar and z3 proves (unsat) that it denotes the same value as the intended tree for all column/parameter values and NULL patterns, or returns a row on which they differ; SQLite disagreements are confirmed by executing both texts on the linked sqlite3.",
+        note="Trusted: reference grammars in vlib/sqlparse.py (hand-written from SQLite parse.y / PostgreSQL gram.y / MySQL sql_yacc.yy), value semantics in vlib/sqlsem.py, z3, sqlite3. PostgreSQL/MySQL verdicts rest on the reference grammar only (no server offline). `*`, `/`, `%`, `||`, LIKE, CAST are uninterpreted (position-sensitive).",
+        ref="DESIGN.md §4 C01"),
     "C54": dict(
         engine=E1, category="other",
         technique="symbolic execution of the real pure-Python collection classes (CrossHair proxies + z3), path-exhaustive within bounds, concrete replay",
